@@ -9,6 +9,12 @@ The workload also varies the LAYOUT of the array operands (every dims relation o
 and directions, every shape of the detector array) and the length units of the fields; the
 monitors judge tables entry by entry after broadcasting the operands by dimension label.
 
+Polymorphic use: the attenuation is what ``sample_material.attenuation_coefficient`` answers and the
+nodes / path lengths / volume are those of the ``sample_shape`` object that was passed in; harness-owned
+subclasses and stand-ins declare their law / their solid and the map monitor recomputes from that.  Further
+workload axes: calling conventions and graph nodes, second use of objects and results, operands with
+variances, dim names used inside the code, integer wavelengths, generic large operands.
+
 Oracles (rv/oracle/cyl.py, long double, no scippneutron): the solid in an orthonormal
 frame of its own built by Gram-Schmidt; a path length is acceptable when it lies
 between the lengths through the solid shrunk and grown by delta = 64 eps (|p - base| +
@@ -60,8 +66,24 @@ RULE = (
     'list, 2-d array, transposed view, strided slice, length-1 array and 0-d vector (same pixels '
     'compared); (g) length units: the same solid with radius, height and start points / detectors in '
     'all 27 combinations of mm/cm/m relative to the base point, every method on every combination '
-    '(a UnitError for a mixture is a counted refusal); a case is never trivial; distinct = distinct (kind of case, unit, axis class, r/h decade, call '
-    'shape / quadrature kind / optical-depth decade) signatures'
+    '(a UnitError for a mixture is a counted refusal); (h) stand-ins of the documented argument classes, all of '
+    'them in every run: Material subclasses that override attenuation_coefficient (a compound = super() + a second '
+    'constituent; own laws constant / linear / quadratic / decreasing / edge / zero in the wavelength) whose own '
+    'scattering_params describe something else (pure scatterer with absorption exactly 0, pure absorber, void, '
+    'generic, opaque), duck-typed materials with and without the fields, a SampleShape subclass that is not a '
+    'Cylinder and delegates to one, a Cylinder subclass with a quadrature of its own for a kind of its own, 3 '
+    'distinct wavelengths each: the map is recomputed with the mu the object declares and the nodes the object '
+    'handed out; (i) calling conventions: compute_transmission_map / beam_intersection / quadrature / the '
+    'constructors positional, by keyword in any order, mixed, default kind, unbound, the kind as numpy.str_ and '
+    '(str, Enum) member, beam_intersection and attenuation_coefficient as nodes of a transform_coords graph; '
+    '(j) second use: the same objects after repr / str / == / copy / deepcopy of them and of the result, result '
+    'coordinates fed back, returned arrays modified in place, the calls repeated after exceptions were raised and '
+    'caught, one Material with two solids and one solid with two Materials (maps compared with the first call); '
+    '(k) radius / height / wavelength / density / cross sections carrying variances; (l) wavelength and detector '
+    'dims named row / quad / x / event / vertex / wavelength-for-the-detectors, integer wavelengths, operands '
+    'without a meaning by label; (m) once per run beam_intersection with 2**20 + 7 paired rays, 3 x 400001 rays '
+    'and a 300 x 4001 outer product; a case is never trivial; distinct = distinct (kind of case, unit, axis '
+    'class, r/h decade, call shape / quadrature kind / optical-depth decade) signatures'
 )
 ASSUMPTIONS = [
     'numpy long double (x87 80 bit) evaluates the clipping of a ray against rho<=r, 0<=z<=h with '
@@ -96,6 +118,25 @@ ASSUMPTIONS = [
     'Cylinder and Material are mutable dataclasses: after a public field has been reassigned (or the '
     'Variable it holds modified in place) every method answers for the solid / material the fields '
     'describe at the time of the call; a refused assignment (frozen class) is counted, not judged',
+    'the attenuation of a sample is what sample_material.attenuation_coefficient(wavelength) answers for the '
+    'object that was passed in, and the integration runs over the nodes, path lengths and volume of the '
+    'sample_shape that was passed in (SampleShape is an abstract base class of the package: beam_intersection, '
+    'volume, quadrature): for a harness-owned stand-in the expected mu is the law the stand-in declares '
+    '(evaluated in long double from the parameters of the law, never by calling it), the expected nodes are the '
+    'ones it handed out; an object that is not a Material instance may be refused with TypeError / '
+    'AttributeError (counted), a subclass may not',
+    'variances: a scipp VariancesError for an operand with variances is a refusal (counted per entry point, '
+    'today: everything that broadcasts radius / height / mu against an array); what is answered is judged for '
+    'its values; variances themselves are judged only for volume = pi r^2 h (r, h independent) and for the '
+    'attenuation coefficient of a wavelength with variances (linear law)',
+    'map operands without a meaning by dimension label (wavelengths not 1-d, a detector dim labelled like the '
+    'wavelength dim or like the dim of the quadrature nodes, "quad") may be refused with a DimensionError '
+    '(counted); a map returned for them is not judged',
+    'display, comparison and copies of Cylinder / Material / the result, in-place modification of returned arrays '
+    'and exceptions raised by earlier calls do not change what a later call with the same inputs answers (1e-12 '
+    'absolute on the map); pickling is left out: scipp Variables of this version refuse it on the unchanged tree',
+    'not applicable to the entry points of this property: masks and one-shot iterables (all operands are '
+    'scipp Variables / scalars, no collection is documented)',
     'the evaluation order of the detector dimension is not part of the property: the per-detector '
     'loop and the vectorised evaluation of the same pixels and wavelengths agree to 1e-12 absolute '
     '(different summation order of ~9000 terms in (0, 1])',
@@ -199,6 +240,12 @@ def _thin(st, res, others, cap=BIG_ELEMS):
         def pick(v, d=d, idx=idx):
             if not hasattr(v, 'dims') or d not in v.dims:
                 return v
+            if idx.size > 64:
+                # many indices: one numpy take on the values (containers only)
+                vals = np.take(np.asarray(v.values), idx, axis=list(v.dims).index(d))
+                if v.dtype == sc.DType.vector3:
+                    return sc.vectors(dims=list(v.dims), values=vals, unit=v.unit)
+                return sc.array(dims=list(v.dims), values=vals, unit=v.unit, dtype=v.dtype)
             return sc.concat([v[d, int(k)] for k in idx], d)
         res = pick(res)
         others = [pick(o) for o in others]
@@ -253,6 +300,51 @@ def _refused_units(ctx, exc, c, where, *extra):
     return False
 
 
+def _kname(kind):
+    """The plain text of a quadrature kind given as any kind of str (np.str_, (str, Enum) member)."""
+    return str.__str__(kind) if isinstance(kind, str) else kind
+
+
+def _solid(shape):
+    """The Cylinder whose public fields describe the solid of a sample shape: the shape itself, or
+    for a harness-owned ``SampleShape`` that is not a Cylinder the one it says it stands for."""
+    return getattr(shape, 'rv_cylinder', shape)
+
+
+def _has_variances(*vs):
+    for v in vs:
+        try:
+            if v is not None and v.variances is not None:
+                return True
+        except Exception:  # noqa: BLE001   dtype without variances (vectors)
+            pass
+    return False
+
+
+def _cyl_variances(c):
+    c = _solid(c)
+    return _has_variances(c.radius, c.height)
+
+
+def _mat_variances(mat):
+    try:
+        sp = mat.scattering_params
+        return _has_variances(mat.effective_sample_number_density, sp.total_scattering_cross_section,
+                              sp.absorption_cross_section)
+    except AttributeError:
+        return False
+
+
+def _refused_variances(ctx, exc, where, *operands, flag=False):
+    """scipp refuses to broadcast an operand that carries variances (``VariancesError``): for inputs
+    with variances that is a refusal (counted, not judged); what is answered instead is judged for
+    its values."""
+    if isinstance(exc, sc.VariancesError) and (flag or _has_variances(*operands)):
+        ctx.count(f'refused:variances:{where}')
+        return True
+    return False
+
+
 # ------------------------------------------------------------ monitor state ---
 class State:
     def __init__(self, ctx, shard):
@@ -272,17 +364,20 @@ class State:
         self.integ_depth = 0         # live frames of _integrate_transmission_fraction
         self.loop_calls = 0          # nested frames seen (= the per-detector loop branch ran)
         self.integ_calls = 0
+        self.outer_returns = 0       # outermost watched frames that returned / unwound (any monitor)
 
 
 # -------------------------------------------------- beam_intersection monitor ---
 def judge_beam(st: State, ev):
     ctx = st.ctx
-    c = ev.args['self']
+    c = _solid(ev.args['self'])
     sp, dr, res = ev.args['start_point'], ev.args['direction'], ev.result
     in_situ = ev.depth > 0
     tag = 'in_situ' if in_situ else 'direct'
+    if not in_situ:
+        st.outer_returns += 1
     try:
-        g = Geom(c)
+        g = Geom(_solid(c))
     except Exception:  # noqa: BLE001
         ctx.oracle_error('C18 geometry of observed cylinder')
         return
@@ -301,6 +396,8 @@ def judge_beam(st: State, ev):
         return
     if ev.exc is not None:
         if _refused_units(ctx, ev.exc, c, f'beam_intersection.{tag}', sp.unit):
+            return
+        if _refused_variances(ctx, ev.exc, f'beam_intersection.{tag}', flag=_cyl_variances(c)):
             return
         if conflict and isinstance(ev.exc, sc.DimensionError):
             # no broadcast of the operands exists: the only allowed answer is this refusal
@@ -638,11 +735,13 @@ def node_table(g: Geom, pts, w):
 def judge_quadrature(st: State, c, kind, result, exc, origin, canonical=False):
     """Judge one observed (points, weights).  Returns the node table or None."""
     ctx = st.ctx
+    kind = _kname(kind)
+    c = _solid(c)
     if isinstance(kind, tuple) or kind == 'mc':
         ctx.count('excluded:mc_kind')
         return None
     try:
-        g = Geom(c)
+        g = Geom(_solid(c))
     except Exception:  # noqa: BLE001
         ctx.oracle_error('C18 geometry of observed cylinder')
         return None
@@ -656,6 +755,8 @@ def judge_quadrature(st: State, c, kind, result, exc, origin, canonical=False):
             ctx.count('excluded:unknown_kind')
             return None
         if _refused_units(ctx, exc, c, 'quadrature'):
+            return None
+        if _refused_variances(ctx, exc, 'quadrature', flag=_cyl_variances(c)):
             return None
         ctx.violation('quadrature_raised', f'quadrature raised {type(exc).__name__}: {exc}', case,
                       **keys)
@@ -775,6 +876,7 @@ def judge_quadrature(st: State, c, kind, result, exc, origin, canonical=False):
 
 
 def canonical_table(st: State, c, kind):
+    c = _solid(c)
     key = (float(c.radius.value), str(c.radius.unit), float(c.height.value), str(c.height.unit),
            str(c.center_of_base.unit), str(kind))
     if key in st.canon:
@@ -795,7 +897,7 @@ def canonical_table(st: State, c, kind):
 def judge_select(st: State, ev):
     """The unit rule: nodes in the unit cylinder, weights > 0, total 2 pi, centred."""
     ctx = st.ctx
-    kind = ev.args.get('kind')
+    kind = _kname(ev.args.get('kind'))
     if isinstance(kind, tuple) or kind == 'mc' or ev.exc is not None:
         return
     try:
@@ -836,19 +938,55 @@ def mu_oracle(material, wavelength, unit_len):
     return mu_si * si.factor(unit_len)
 
 
+def mu_expected(material, wavelength, unit_len):
+    """mu per ``unit_len`` that ``material`` has at the wavelengths, i.e. what
+    ``material.attenuation_coefficient(lambda)`` means for that object: for a plain Material the
+    1/v law of its fields; for a harness-owned stand-in (a subclass that overrides the method, a
+    duck-typed object) the law the stand-in declares (evaluated here in long double from the
+    parameters of the law, never by calling the method)."""
+    f = getattr(material, 'rv_expected_mu', None)
+    if f is not None:
+        return np.asarray(f(wavelength, unit_len), dtype=LD).reshape(-1)
+    return mu_oracle(material, wavelength, unit_len)
+
+
 def judge_mu(st: State, ev):
+    """``Material.attenuation_coefficient`` (the base-class code object; a subclass that calls
+    ``super()`` is seen here with its own fields): values against the 1/v law of the fields; where
+    only the wavelength carries variances the result's variances against first-order propagation
+    of that linear law."""
     ctx = st.ctx
+    if ev.depth == 0:
+        st.outer_returns += 1
+    lam = ev.args['wavelength']
+    mat = ev.args['self']
     if ev.exc is not None:
+        if _refused_variances(ctx, ev.exc, 'attenuation_coefficient', lam, flag=_mat_variances(mat)):
+            return
         ctx.violation('attenuation_raised', f'attenuation_coefficient raised {ev.exc!r}',
                       {'monitor': 'Material.attenuation_coefficient'})
         return
     try:
-        lam = ev.args['wavelength']
-        exp = mu_oracle(ev.args['self'], lam, sc.Unit('m'))
-        got = (ev.result * sc.scalar(1.0, unit='m')).to(unit='dimensionless')
-        got = np.asarray(got.values, dtype=np.float64).reshape(-1)
+        exp = mu_oracle(mat, lam, sc.Unit('m'))
+        got_v = (ev.result * sc.scalar(1.0, unit='m')).to(unit='dimensionless')
+        got = np.asarray(got_v.values, dtype=np.float64).reshape(-1)
         err = si.relerr(got, exp)
         worst = float(np.max(err)) if err.size else 0.0
+        var_err = None
+        if _has_variances(lam) and not _mat_variances(mat):
+            # mu = n (sigma_s + sigma_a lambda / lambda_ref): linear in the one operand with variances
+            n = mat.effective_sample_number_density
+            sa = mat.scattering_params.absorption_cross_section
+            slope = (LD(float(n.value)) * si.factor(n.unit) * LD(float(sa.value)) * si.factor(sa.unit)
+                     / cyl.REF_WAVELENGTH_M)
+            var_exp = slope * slope * (np.asarray(lam.variances, dtype=np.float64).reshape(-1).astype(LD)
+                                       * si.factor(lam.unit) ** 2)
+            if got_v.variances is None:
+                var_err = float('inf')
+            else:
+                var_got = np.asarray(got_v.variances, dtype=np.float64).reshape(-1)
+                scale_v = np.maximum(np.abs(var_exp), LD(1e-300))
+                var_err = float(np.max(np.abs(var_got - var_exp) / scale_v)) if var_got.size else 0.0
     except Exception:  # noqa: BLE001
         ctx.oracle_error('C18 attenuation oracle')
         return
@@ -858,6 +996,16 @@ def judge_mu(st: State, ev):
         ctx.violation('attenuation_value', f'attenuation coefficient off by {worst:.3g} relative',
                       {'monitor': 'Material.attenuation_coefficient', 'got': repr(float(got[0])),
                        'expected_1/m': repr(float(np.ravel(exp)[0]))})
+    if var_err is not None:
+        ctx.event('attenuation_coefficient.variances')
+        if np.isfinite(var_err):
+            ctx.dev('mu variance relative error (wavelength with variances)', var_err)
+        if not var_err <= 1e-12:
+            ctx.violation('attenuation_variance',
+                          'wavelength with variances: variances of the attenuation coefficient are not '
+                          f'(n sigma_a / lambda_ref)^2 var(lambda) (off by {var_err:.3g} relative)',
+                          {'monitor': 'Material.attenuation_coefficient',
+                           'case': st.case_descr})
 
 
 def judge_single_scatter(st: State, ev):
@@ -868,7 +1016,7 @@ def judge_single_scatter(st: State, ev):
     if _big_skip(st, ev.result.size):
         return
     try:
-        g = Geom(ev.args['sample_shape'])
+        g = Geom(_solid(ev.args['sample_shape']))
         res = ev.result
         a_sp, a_id, a_sd = (ev.args[k] for k in ('scatter_point', 'initial_direction',
                                                  'scatter_direction'))
@@ -921,6 +1069,8 @@ def judge_single_scatter(st: State, ev):
 
 def on_quadrature_return(st: State, ev):
     kind = ev.args.get('kind')
+    if ev.depth == 0:
+        st.outer_returns += 1
     if ev.depth > 0 and ev.exc is None and st.origin in ('transmission', 'state'):
         st.last_quad = (ev.result[0], ev.result[1], kind, ev.args['self'])
     judge_quadrature(st, ev.args['self'], kind, ev.result, ev.exc, st.origin)
@@ -943,7 +1093,7 @@ def judge_props(st: State, c, label):
     """``volume`` and ``center`` of a live object against its CURRENT public fields."""
     ctx = st.ctx
     try:
-        g = Geom(c)
+        g = Geom(_solid(c))
     except Exception:  # noqa: BLE001
         ctx.oracle_error('C18 geometry of observed cylinder')
         return
@@ -959,9 +1109,12 @@ def judge_props(st: State, c, label):
         except Exception as e:  # noqa: BLE001
             if _refused_units(ctx, e, c, name):
                 continue
+            if _refused_variances(ctx, e, name, flag=_cyl_variances(c)):
+                continue
             ctx.violation('state_attribute_raised', f'Cylinder.{name} raised {type(e).__name__}: {e}',
                           case, attribute=name)
             continue
+        var_err = None
         try:
             if name == 'volume':
                 w_unit = g.r_unit * g.r_unit * g.h_unit
@@ -970,6 +1123,15 @@ def judge_props(st: State, c, label):
                 err = float(abs(LD(float(gv.value)) - V) / V)
                 tol = 16 * EPS
                 what = f'volume {float(gv.value)!r}, pi r^2 h of the current fields {float(V)!r}'
+                if _cyl_variances(c):
+                    # V = pi r^2 h, r and h independent operands: first order
+                    # var V = (2 pi r h)^2 var r + (pi r^2)^2 var h  (raw values: V is in r.unit^2 h.unit)
+                    vr = LD(float(c.radius.variance)) if c.radius.variance is not None else LD(0)
+                    vh = LD(float(c.height.variance)) if c.height.variance is not None else LD(0)
+                    rr, hh = LD(g.r_raw), LD(g.h_raw)
+                    var_exp = (2 * cyl.PI * rr * hh) ** 2 * vr + (cyl.PI * rr * rr) ** 2 * vh
+                    var_err = (float('inf') if gv.variance is None else
+                               float(abs(LD(float(gv.variance)) - var_exp) / var_exp))
             else:
                 gv = np.asarray(got.value, dtype=np.float64) * float(_ratio(got.unit, g.unit))
                 exp = np.asarray(g.base, dtype=LD) + g.fr[2] * g.h / 2
@@ -984,18 +1146,30 @@ def judge_props(st: State, c, label):
         ctx.dev(f'{name} relative deviation from the current fields', err)
         if not err <= tol:
             ctx.violation(f'state_{name}', what, case, attribute=name)
+        if var_err is not None:
+            ctx.event('state.volume.variances')
+            if np.isfinite(var_err):
+                ctx.dev('volume variance relative error (radius / height with variances)', var_err)
+            if not var_err <= 1e-12:
+                ctx.violation('volume_variance',
+                              'radius / height with variances: the variance of the volume is not the '
+                              f'first-order propagation through pi r^2 h (off by {var_err:.3g} relative)',
+                              case, attribute=name)
 
 
 def judge_map(st: State, ev):
     """compute_transmission_map: recompute from the observed nodes/weights with oracle paths."""
     ctx = st.ctx
     a = ev.args
-    c, mat = a['sample_shape'], a['sample_material']
-    kind = a['quadrature_kind']
+    if ev.depth == 0:
+        st.outer_returns += 1
+    shape_arg, mat = a['sample_shape'], a['sample_material']
+    c = _solid(shape_arg)
+    kind = _kname(a['quadrature_kind'])
     quad, st.last_quad = st.last_quad, None
     integral, st.last_integral = st.last_integral, None
     try:
-        g = Geom(c)
+        g = Geom(_solid(c))
     except Exception:  # noqa: BLE001
         ctx.oracle_error('C18 geometry of observed cylinder')
         return
@@ -1003,19 +1177,49 @@ def judge_map(st: State, ev):
     if st.case_descr:
         case['case'] = st.case_descr
     keys = dict(g.keys)
+    det, lam = a['detector_position'], a['wavelength']
+    try:
+        # layouts for which the documented call has no meaning by dimension label: the wavelengths are
+        # "an array" (1-d); a detector dim with the label of the wavelength dim gives one label two roles;
+        # a detector dim labelled like the dim of the quadrature nodes ('quad') is paired with the nodes
+        odd_dims = (lam.ndim != 1 or (lam.ndim == 1 and lam.dim in det.dims) or 'quad' in det.dims)
+        with_var = _has_variances(lam) or _cyl_variances(c) or _mat_variances(mat)
+    except Exception:  # noqa: BLE001
+        ctx.oracle_error('C18 map operands')
+        return
     if ev.exc is not None:
         if _refused_units(ctx, ev.exc, c, 'compute_transmission_map'):
+            return
+        if _refused_variances(ctx, ev.exc, 'compute_transmission_map', flag=with_var):
+            return
+        if odd_dims and isinstance(ev.exc, sc.DimensionError):
+            ctx.count('refused:map_operand_dims_without_meaning_by_label')
+            return
+        if isinstance(ev.exc, NotImplementedError) and not isinstance(kind, tuple) and kind not in KINDS \
+                and not hasattr(shape_arg, 'rv_kinds'):
+            ctx.count('excluded:unknown_kind')
+            return
+        if getattr(mat, 'rv_documented', True) is False and isinstance(ev.exc, (TypeError, AttributeError)):
+            # an object that only quacks like a Material (no subclass): refusing it is allowed
+            ctx.count('refused:material_not_a_Material_instance')
             return
         ctx.violation('transmission_raised',
                       f'compute_transmission_map raised {type(ev.exc).__name__}: {ev.exc}', case,
                       **keys)
         return
+    if odd_dims:
+        ctx.count('not_judged:map_for_operand_dims_without_meaning_by_label')
+        return
+    if quad is None:
+        own = getattr(shape_arg, 'rv_returned', None)
+        if own is not None:
+            quad = own            # the nodes a harness-owned subclass handed out in its own quadrature()
+            ctx.count('map_judged_from_nodes_of_overriding_subclass')
     if quad is None:
         ctx.count('map_not_judged:no_quadrature_observed')
         return
     try:
         res = ev.result
-        det, lam = a['detector_position'], a['wavelength']
         data = res.data
         ddims = list(det.dims)
         want = [*ddims, lam.dim]
@@ -1044,7 +1248,7 @@ def judge_map(st: State, ev):
                           f'{case["nan_in_map"]} of {T.size} map elements are not finite', case, **keys)
             return
         V = cyl.volume(g.r_raw, g.h_raw)
-        mu = mu_oracle(mat, lam, g.unit)
+        mu = mu_expected(mat, lam, g.unit)
         beam = np.asarray(a['beam_direction'].value, dtype=np.float64)
         exp, lo, hi = cyl.transmission(g.fr, g.base, g.r, g.h, pts, w, V, beam, D, mu, K_EPS)
         unit_ok = data.unit == sc.units.dimensionless
@@ -1098,21 +1302,48 @@ def judge_map(st: State, ev):
         if not d1 <= TOL_SUM:
             ctx.violation('transmission_not_one', f'no attenuation but T differs from 1 by {d1:.3g}',
                           case, **keys)
+    # decreases when attenuation grows: along the wavelengths of one map (decided where the recomputed
+    # enclosures of the two elements are separated by more than the tolerance of the values)
+    try:
+        if mu.size >= 2:
+            o = np.argsort(np.asarray(mu, dtype=np.float64), kind='stable')
+            gap = np.asarray(lo[:, o[:-1]] - hi[:, o[1:]], dtype=np.float64)
+            dec = (gap > 2 * TOL_T) & (np.diff(np.asarray(mu, dtype=np.float64)[o]) > 0)[None, :]
+            ctx.count('undecided:wavelength_step_below_rounding', int(np.count_nonzero(~dec)))
+            if np.any(dec):
+                ctx.event('transmission.monotone_wavelength')
+                badw = dec & ~(Tj[:, o[1:]] < Tj[:, o[:-1]])
+                if np.any(badw):
+                    i, j = np.unravel_index(int(np.flatnonzero(badw.ravel())[0]), badw.shape)
+                    case2 = dict(case, detector_index=int(i),
+                                 mu_per_unit=[repr(float(mu[o[j]])), repr(float(mu[o[j + 1]]))],
+                                 T=[repr(float(Tj[i, o[j]])), repr(float(Tj[i, o[j + 1]]))])
+                    ctx.violation('transmission_not_decreasing_in_wavelength',
+                                  f'attenuation grows from {float(mu[o[j]])!r} to {float(mu[o[j + 1]])!r} per '
+                                  f'{g.unit} between two wavelengths, transmission goes '
+                                  f'{float(Tj[i, o[j]])!r} -> {float(Tj[i, o[j + 1]])!r}', case2, **keys)
+    except Exception:  # noqa: BLE001
+        ctx.oracle_error('C18 wavelength monotonicity check')
     if integral is not None:
-        # normalisation: map = integral / volume
+        # normalisation: map = integral / volume (an internal of the package: judged only where it has
+        # the layout of the map; otherwise the map itself is what is judged above)
+        dn = None
         try:
             iv = integral if integral.unit == w_unit else integral.to(unit=w_unit)
-            I = np.asarray(iv.transpose(want).values, dtype=np.float64).reshape(T.shape)
-            dn = float(np.max(np.abs(I.astype(LD) / V - T)))
+            if dict(iv.sizes) == dict(data.sizes):
+                I = np.asarray(iv.transpose(want).values, dtype=np.float64).reshape(T.shape)
+                dn = float(np.max(np.abs(I.astype(LD) / V - T)))
+            else:
+                ctx.count('normalisation_not_judged:integral_has_other_dims_than_the_map')
         except Exception:  # noqa: BLE001
             ctx.oracle_error('C18 normalisation check')
-            return
-        ctx.event('integrate.normalisation')
-        ctx.dev('map - integral / V', dn)
-        if not dn <= 1e-12:
-            case['integral_over_V_minus_map'] = repr(dn)
-            ctx.violation('transmission_normalisation',
-                          f'map differs from (weighted sum)/(pi r^2 h) by {dn:.3g}', case, **keys)
+        if dn is not None:
+            ctx.event('integrate.normalisation')
+            ctx.dev('map - integral / V', dn)
+            if not dn <= 1e-12:
+                case['integral_over_V_minus_map'] = repr(dn)
+                ctx.violation('transmission_normalisation',
+                              f'map differs from (weighted sum)/(pi r^2 h) by {dn:.3g}', case, **keys)
     st.maps.append({'T': T, 'geom': g, 'kind': str(kind), 'mu_max': mu_max, 'exp': exp,
                     'sub': sub, 'near_axis': keys['near_axis']})
 
@@ -2218,16 +2449,867 @@ def heavy_case(rng, st, mods, tier):
         st.case_descr = None
 
 
+# ------------------------------------------------- stand-ins (polymorphic use) ---
+# compute_transmission_map documents sample_shape as a SampleShape (an abstract base class with
+# beam_intersection / volume / quadrature) and takes the attenuation from
+# sample_material.attenuation_coefficient(wavelength): the map is the weighted sum over the nodes
+# THAT shape hands out of exp(-mu (L_in + L_out)) with the mu THAT material answers, whatever class
+# the two objects have.  The stand-ins below are harness-owned; each declares its law / its solid so
+# that the monitors can recompute the map without calling the stand-in.
+class Law:
+    """mu(lambda) = sum over terms of coef [1/m] * (lambda / angstrom)^p on lo <= lambda/angstrom < hi."""
+
+    def __init__(self, name, terms):
+        self.name = name
+        self.terms = [(float(c), int(p), float(lo), float(hi)) for c, p, lo, hi in terms]
+
+    def f64(self, lam_angstrom):
+        x = np.asarray(lam_angstrom, dtype=np.float64)
+        out = np.zeros(x.shape, dtype=np.float64)
+        for c, p, lo, hi in self.terms:
+            out = out + np.where((x >= lo) & (x < hi), c * x ** p, 0.0)
+        return out
+
+    def ld(self, lam_si):
+        x = np.asarray(lam_si, dtype=LD) / LD('1e-10')
+        out = np.zeros(x.shape, dtype=LD)
+        for c, p, lo, hi in self.terms:
+            out = out + np.where((x >= LD(lo)) & (x < LD(hi)), LD(c) * x ** p, LD(0))
+        return out
+
+    def answer(self, wavelength):
+        """What a stand-in returns from attenuation_coefficient: float64 in scipp containers."""
+        lam = wavelength.to(unit='angstrom', dtype='float64', copy=False)
+        vals = self.f64(np.asarray(lam.values, dtype=np.float64))
+        if wavelength.ndim == 0:
+            return sc.scalar(float(vals), unit='1/m')
+        return sc.array(dims=list(wavelength.dims), values=vals, unit='1/m')
+
+    def expected(self, wavelength, unit_len):
+        lam = np.asarray(wavelength.values, dtype=np.float64).reshape(-1).astype(LD) * si.factor(
+            wavelength.unit)
+        return self.ld(lam) * si.factor(unit_len)
+
+
+LAWS = ('constant', 'linear in wavelength', 'quadratic in wavelength', 'decreasing with wavelength',
+        'edge (drops above a wavelength)', 'non-monotonic (equal at the shortest and the longest wavelength)',
+        'zero')
+FIELD_PROFILES = ('pure scatterer (absorption exactly 0)', 'pure absorber (scattering exactly 0)',
+                  'void (both cross sections 0)', 'generic', 'opaque by its fields')
+MATERIAL_STANDINS = ('Material subclass: compound (super() + second constituent)',
+                     'Material subclass: own law, fields describe something else',
+                     'duck-typed material with the fields of a Material',
+                     'duck-typed material with attenuation_coefficient only')
+SHAPE_STANDINS = ('SampleShape subclass delegating to a Cylinder (no Cylinder fields)',
+                  'Cylinder subclass with a quadrature of its own for its own kind',
+                  'Cylinder subclass, standard kind through super()')
+_INF_A = 1e300
+
+
+def make_law(name, mu_top, lam_A):
+    """The law ``name`` scaled so that its largest value over the wavelengths is ``mu_top`` [1/m]."""
+    lo, hi = float(lam_A[0]), float(lam_A[-1])
+    if name == 'constant':
+        t = [(mu_top, 0, 0.0, _INF_A)]
+    elif name == 'linear in wavelength':
+        t = [(mu_top / hi, 1, 0.0, _INF_A)]
+    elif name == 'quadratic in wavelength':
+        t = [(mu_top / hi ** 2, 2, 0.0, _INF_A)]
+    elif name == 'decreasing with wavelength':
+        t = [(mu_top * lo, -1, 0.0, _INF_A)]
+    elif name == 'edge (drops above a wavelength)':
+        edge = float(np.sqrt(lam_A[0] * lam_A[1])) if len(lam_A) > 1 else 2 * hi
+        t = [(mu_top, 0, 0.0, edge), (0.2 * mu_top, 0, edge, _INF_A)]
+    elif name.startswith('non-monotonic'):
+        e1 = float(np.sqrt(lam_A[0] * lam_A[1])) if len(lam_A) > 2 else 2 * hi
+        e2 = float(np.sqrt(lam_A[-2] * lam_A[-1])) if len(lam_A) > 2 else 3 * hi
+        t = [(0.3 * mu_top, 0, 0.0, e1), (mu_top, 0, e1, e2), (0.3 * mu_top, 0, e2, _INF_A)]
+    elif name == 'zero':
+        t = []
+    else:
+        raise KeyError(name)
+    return Law(name, t)
+
+
+def make_standins(mods):
+    """The stand-in classes (they need the package's base classes, so they are built at run time)."""
+    import types
+    from scippneutron.absorption.types import SampleShape
+    Cylinder, Material, ScatteringParams, _ = mods
+
+    class Compound(Material):
+        """Two kinds of atoms per formula unit: the one in ``scattering_params`` and ``rv_other``."""
+        rv_documented = True
+        rv_other = None
+
+        def attenuation_coefficient(self, wavelength):
+            first = super().attenuation_coefficient(wavelength)
+            second = Material(self.rv_other, self.effective_sample_number_density
+                              ).attenuation_coefficient(wavelength)
+            return first + second.to(unit=first.unit)
+
+        def rv_expected_mu(self, wavelength, unit_len):
+            other = types.SimpleNamespace(scattering_params=self.rv_other,
+                                          effective_sample_number_density=self.effective_sample_number_density)
+            return mu_oracle(self, wavelength, unit_len) + mu_oracle(other, wavelength, unit_len)
+
+    class LawMaterial(Material):
+        """A Material whose attenuation follows its own law; the inherited fields are kept but
+        describe something else."""
+        rv_documented = True
+        rv_law = None
+
+        def attenuation_coefficient(self, wavelength):
+            return self.rv_law.answer(wavelength)
+
+        def rv_expected_mu(self, wavelength, unit_len):
+            return self.rv_law.expected(wavelength, unit_len)
+
+    class DuckMaterial:
+        """Not a Material: the same two attributes and the method."""
+        rv_documented = False
+
+        def __init__(self, scattering_params, effective_sample_number_density, law):
+            self.scattering_params = scattering_params
+            self.effective_sample_number_density = effective_sample_number_density
+            self.rv_law = law
+
+        def attenuation_coefficient(self, wavelength):
+            return self.rv_law.answer(wavelength)
+
+        def rv_expected_mu(self, wavelength, unit_len):
+            return self.rv_law.expected(wavelength, unit_len)
+
+    class BareMaterial:
+        """Not a Material: the method only."""
+        rv_documented = False
+
+        def __init__(self, law):
+            self.rv_law = law
+
+        def attenuation_coefficient(self, wavelength):
+            return self.rv_law.answer(wavelength)
+
+        def rv_expected_mu(self, wavelength, unit_len):
+            return self.rv_law.expected(wavelength, unit_len)
+
+    class Wrapped(SampleShape):
+        """A SampleShape that is not a Cylinder: every abstract method delegates to the Cylinder it
+        stands for (``rv_cylinder``: where the monitors read the solid from)."""
+
+        def __init__(self, inner):
+            self.rv_cylinder = inner
+
+        def beam_intersection(self, start_point, direction):
+            return self.rv_cylinder.beam_intersection(start_point, direction)
+
+        @property
+        def volume(self):
+            return self.rv_cylinder.volume
+
+        def quadrature(self, kind):
+            return self.rv_cylinder.quadrature(kind)
+
+    class OwnRule(Cylinder):
+        """A Cylinder with one more deterministic kind, ('grid', n_rho, n_phi, n_z): the midpoint rule
+        of equal-volume cells in (rho^2, phi, z), built in a Gram-Schmidt frame of the axis."""
+        rv_kinds = ('grid',)
+        rv_returned = None
+
+        def quadrature(self, kind):
+            if isinstance(kind, tuple) and kind and kind[0] == 'grid':
+                n_r, n_p, n_z = (int(k) for k in kind[1:4])
+                U = self.center_of_base.unit
+                r = float(self.radius.to(unit=U, copy=False).value)
+                h = float(self.height.to(unit=U, copy=False).value)
+                e1, e2, e3 = (np.asarray(e, dtype=np.float64) for e in cyl.frame(self.symmetry_line.value))
+                i, j, k = (x.ravel() for x in np.meshgrid(np.arange(n_r), np.arange(n_p), np.arange(n_z),
+                                                          indexing='ij'))
+                rho = r * np.sqrt((i + 0.5) / n_r)
+                phi = 2 * np.pi * (j + 0.5 * (k % 2)) / n_p
+                z = h * (k + 0.5) / n_z
+                pts = (np.asarray(self.center_of_base.value, dtype=np.float64)[None, :]
+                       + (rho * np.cos(phi))[:, None] * e1 + (rho * np.sin(phi))[:, None] * e2
+                       + z[:, None] * e3)
+                n = pts.shape[0]
+                vol = np.pi * float(self.radius.value) ** 2 * float(self.height.value)
+                points = sc.vectors(dims=['quad'], values=pts, unit=U)
+                weights = sc.array(dims=['quad'], values=np.full(n, vol / n),
+                                   unit=self.radius.unit * self.radius.unit * self.height.unit)
+                self.rv_returned = (points.copy(), weights.copy(), kind, self)
+                return points, weights
+            self.rv_returned = None
+            return super().quadrature(kind)
+
+    return types.SimpleNamespace(Compound=Compound, LawMaterial=LawMaterial, DuckMaterial=DuckMaterial,
+                                 BareMaterial=BareMaterial, Wrapped=Wrapped, OwnRule=OwnRule)
+
+
+def _moderate_solid(rng, ctx):
+    s = gen_solid(rng, ctx, int(rng.integers(0, 10 ** 6)) + 2 * len(AXIS_CLASSES), same_unit=True)
+    s['h'] = float(s['r'] * 10.0 ** rng.uniform(-1, 1))
+    return s
+
+
+def _scene(rng, s, n_det, n_lam, lam_unit='angstrom'):
+    """Wavelengths (sorted, distinct), detectors around the solid, a beam: inputs of a map."""
+    lam_A = np.sort(10.0 ** rng.uniform(-1, np.log10(20.0), size=n_lam))
+    for k in range(1, n_lam):                      # clearly distinct wavelengths
+        lam_A[k] = max(lam_A[k], lam_A[k - 1] * 1.3)
+    lam_A = np.minimum(lam_A, 20.0 * 1.3 ** np.arange(1 - n_lam, 1))
+    f = {'angstrom': 1.0, 'nm': 0.1, 'm': 1e-10}[lam_unit]
+    lam = sc.array(dims=['wavelength'], values=lam_A * f, unit=lam_unit)
+    centre = s['base'] + s['axis'] * s['h'] / 2
+    dirs = np.array([_sphere(rng) for _ in range(n_det)])
+    D = centre + dirs * ((s['r'] + s['h']) * 10.0 ** rng.uniform(0.5, 3, size=n_det))[:, None]
+    det = sc.vectors(dims=['det'], values=D, unit=s['U'])
+    return lam_A, lam, D, det, _sphere(rng)
+
+
+def _plain_material(mods, s, lam_A, tau, ss=6.0, sa=4.0):
+    """A plain Material (cross sections in barn) with optical depth ``tau`` across the solid at the
+    longest wavelength."""
+    _, Material, ScatteringParams, _ = mods
+    size_m = (s['r'] + s['h']) * float(si.factor(sc.Unit(s['U'])))
+    xs = ss + sa * float(lam_A[-1]) / 1.7982
+    n = tau / (size_m * 100.0 * xs) if xs > 0 else 0.01      # mu [1/m] = 100 n[1/A^3] xs[barn]
+    sp = ScatteringParams('Fake', absorption_cross_section=sc.scalar(float(sa), unit='barn'),
+                          total_scattering_cross_section=sc.scalar(float(ss), unit='barn'))
+    return Material(sp, sc.scalar(n, unit='1/angstrom^3'))
+
+
+def _outer_call(st, what, f, **keys):
+    """Run one call form of a public entry point.  An exception that unwinds through a watched frame
+    is judged by that frame's monitor; one raised before any watched frame was entered (argument
+    binding, coordinate lookup of a graph node) means this documented way of calling is refused."""
+    before = st.outer_returns
+    try:
+        return f(), None
+    except Exception as e:  # noqa: BLE001
+        if st.outer_returns == before:
+            st.ctx.violation('call_form_refused', f'{what}: {type(e).__name__}: {e}',
+                             {'monitor': 'calling conventions', 'case': st.case_descr}, **keys)
+        return None, e
+
+
+def _last_T(st):
+    return None if not st.maps else np.array(st.maps[-1]['T'], dtype=np.float64)
+
+
+def _same_map(st, ref, got, label, kind):
+    """The same solid, material, beam, wavelengths and pixels: the same transmission to 1e-12."""
+    ctx = st.ctx
+    if ref is None or got is None:
+        ctx.count(f'{kind}:not_compared')
+        return
+    d = float(np.max(np.abs(got - ref))) if got.shape == ref.shape else float('inf')
+    ctx.event(f'{kind}')
+    ctx.dev(f'{kind}: same inputs, |T - T(first call)|', d)
+    if not d <= 1e-12:
+        ctx.violation(kind, f'{label}: the same inputs give a map that differs by {d:.3g}',
+                      {'monitor': kind, 'case': st.case_descr, 'T': got.ravel()[:6].tolist(),
+                       'T_first_call': ref.ravel()[:6].tolist()}, step=label)
+
+
+def poly_case(rng, st, mods, SI, i):
+    """(i) subclasses / stand-ins of the documented argument classes: the map must follow the
+    polymorphic methods of the objects that were passed in."""
+    ctx = st.ctx
+    Cylinder, Material, ScatteringParams, ctm = mods
+    s = _moderate_solid(rng, ctx)
+    c = make_cylinder(Cylinder, s)
+    lam_A, lam, D, det, beam = _scene(rng, s, 3, 3, ('angstrom', 'nm')[i % 2])
+    size_m = (s['r'] + s['h']) * float(si.factor(sc.Unit(s['U'])))
+    tau = float(rng.uniform(0.4, 2.5))
+    mu_top = tau / size_m
+
+    def fields(profile, tau_f):
+        """(ScatteringParams, density) of a profile with optical depth tau_f at the longest wavelength."""
+        ss, sa = {'pure scatterer (absorption exactly 0)': (5.0, 0.0),
+                  'pure absorber (scattering exactly 0)': (0.0, 7.0),
+                  'void (both cross sections 0)': (0.0, 0.0),
+                  'generic': (6.0, 4.0), 'opaque by its fields': (6.0, 4.0)}[profile]
+        if profile == 'opaque by its fields':
+            tau_f = 60.0
+        xs = ss + sa * float(lam_A[-1]) / 1.7982
+        n = tau_f / (size_m * 100.0 * xs) if xs > 0 else tau / (size_m * 100.0 * 10.0)
+        return (ScatteringParams('Fake', absorption_cross_section=sc.scalar(sa, unit='barn'),
+                                 total_scattering_cross_section=sc.scalar(ss, unit='barn')),
+                sc.scalar(n, unit='1/angstrom^3'))
+
+    def call(shape, mat, kind, label):
+        st.maps.clear()
+        try:
+            ctm(shape, mat, sc.vector(beam), lam, det, kind)
+        except Exception:  # noqa: BLE001  judged by the map monitor
+            pass
+        ctx.event('standin.map_called')
+        ctx.case(('stand-in', label, str(kind), s['U']))
+        return _last_T(st)
+
+    kind = KINDS[i % 2]
+    # -- materials
+    for k, cls in enumerate(MATERIAL_STANDINS):
+        if k == 0:
+            # the natural compound: the listed constituent is a pure scatterer, the other one absorbs
+            for profile in dict.fromkeys((FIELD_PROFILES[0], FIELD_PROFILES[(i + 1) % 4])):
+                sp, n = fields(profile, 0.3 * tau)
+                m = SI.Compound(sp, n)
+                # second constituent: optical depth 0.7 tau at the longest wavelength for the same density
+                n_val = float(n.value)
+                sa2 = 0.7 * tau / (size_m * 100.0 * n_val) / (0.1 + float(lam_A[-1]) / 1.7982)
+                m.rv_other = ScatteringParams(
+                    'Other', absorption_cross_section=sc.scalar(sa2, unit='barn'),
+                    total_scattering_cross_section=sc.scalar(0.1 * sa2, unit='barn'))
+                st.case_descr = {'kind': 'stand-in material', 'class': cls, 'fields': profile,
+                                 'law': 'compound', 'lam_angstrom': lam_A.tolist()}
+                call(c, m, kind, cls)
+                ctx.hit('material stand-in: ' + cls)
+                ctx.hit('stand-in fields: ' + profile)
+            continue
+        profile = FIELD_PROFILES[(i + k) % len(FIELD_PROFILES)]
+        laws = LAWS if k == 1 else tuple(LAWS[(i + k + 2 * j) % len(LAWS)] for j in range(2 if k == 2 else 1))
+        for law_name in laws:
+            law = make_law(law_name, mu_top, lam_A)
+            sp, n = fields(profile, tau)
+            if k == 1:
+                m = SI.LawMaterial(sp, n)
+                m.rv_law = law
+            elif k == 2:
+                m = SI.DuckMaterial(sp, n, law)
+            else:
+                m = SI.BareMaterial(law)
+            st.case_descr = {'kind': 'stand-in material', 'class': cls,
+                             'fields': profile if k < 3 else None, 'law': law_name,
+                             'lam_angstrom': lam_A.tolist()}
+            call(c, m, kind, cls)
+            ctx.hit('material stand-in: ' + cls)
+            ctx.hit('stand-in law: ' + law_name)
+            if k < 3:
+                ctx.hit('stand-in fields: ' + profile)
+    # -- shapes
+    plain = _plain_material(mods, s, lam_A, tau)
+    lawm = SI.LawMaterial(*fields(FIELD_PROFILES[0], tau))
+    lawm.rv_law = make_law(LAWS[1 + i % 2], mu_top, lam_A)
+    st.case_descr = {'kind': 'stand-in shape', 'class': SHAPE_STANDINS[0]}
+    t_plain = call(c, plain, kind, 'plain objects')
+    t_wrap = call(SI.Wrapped(c), plain, kind, SHAPE_STANDINS[0])
+    _same_map(st, t_plain, t_wrap, 'SampleShape delegating to the same Cylinder', 'standin_shape_same_map')
+    call(SI.Wrapped(c), lawm, kind, SHAPE_STANDINS[0] + ' + stand-in material')
+    ctx.hit('shape stand-in: ' + SHAPE_STANDINS[0])
+    own = SI.OwnRule(c.symmetry_line, c.center_of_base, c.radius, c.height)
+    grid = ('grid', 2 + i % 3, 6 + i % 4, 3 + i % 2)
+    st.case_descr = {'kind': 'stand-in shape', 'class': SHAPE_STANDINS[1], 'own_kind': list(grid)}
+    call(own, plain, grid, SHAPE_STANDINS[1])
+    if own.rv_returned is not None:
+        ctx.hit('shape stand-in: ' + SHAPE_STANDINS[1])
+    call(own, lawm, grid, SHAPE_STANDINS[1] + ' + stand-in material')
+    st.case_descr = {'kind': 'stand-in shape', 'class': SHAPE_STANDINS[2]}
+    t_sub = call(own, plain, kind, SHAPE_STANDINS[2])
+    _same_map(st, t_plain, t_sub, 'Cylinder subclass with the same fields', 'standin_shape_same_map')
+    ctx.hit('shape stand-in: ' + SHAPE_STANDINS[2])
+    st.maps.clear()
+    st.case_descr = None
+    return s
+
+
+# ------------------------------------------------------- calling conventions ---
+CALL_FORMS = ('map: all positional', 'map: all keywords in another order', 'map: mixed, default kind',
+              'map: positional, default kind', 'map: kind as numpy.str_', 'map: kind as (str, Enum) member',
+              'beam_intersection: keywords', 'beam_intersection: keywords in another order',
+              'beam_intersection: mixed', 'beam_intersection: unbound method',
+              'quadrature: keyword', 'quadrature: numpy.str_', 'quadrature: (str, Enum) member',
+              'constructors: keywords', 'graph node: beam_intersection', 'graph node: attenuation_coefficient')
+
+
+def convention_case(rng, st, mods, i):
+    """(d) every calling convention the signatures allow and the bound methods as nodes of a
+    transform_coords graph; (e) numpy / Enum strings for the quadrature kind."""
+    import enum
+    ctx = st.ctx
+    Cylinder, Material, ScatteringParams, ctm = mods
+
+    class Kind(str, enum.Enum):
+        cheap = 'cheap'
+        medium = 'medium'
+        expensive = 'expensive'
+
+    s = _moderate_solid(rng, ctx)
+    U = s['U']
+    st.case_descr = {'kind': 'calling conventions'}
+    c, e = _outer_call(st, 'Cylinder(**fields)', lambda: Cylinder(
+        height=sc.scalar(s['h'], unit=U), radius=sc.scalar(s['r'], unit=s['rU']),
+        center_of_base=sc.vector(s['base'], unit=U), symmetry_line=sc.vector(s['axis'])),
+        form='constructors: keywords')
+    lam_A, lam, D, det, beam = _scene(rng, s, 3, 2)
+    plain = _plain_material(mods, s, lam_A, float(rng.uniform(0.4, 2.5)))
+    m, e2 = _outer_call(st, 'Material(**fields)', lambda: Material(
+        effective_sample_number_density=plain.effective_sample_number_density,
+        scattering_params=plain.scattering_params), form='constructors: keywords')
+    ctx.hit('call form: constructors: keywords')
+    if c is None or m is None:
+        return s
+    bv = sc.vector(beam)
+
+    def run_map(label, f, ref=None):
+        st.case_descr = {'kind': 'calling conventions', 'form': label}
+        st.maps.clear()
+        _outer_call(st, label, f, form=label)
+        ctx.hit('call form: ' + label)
+        ctx.case(('call form', label, U))
+        t = _last_T(st)
+        if ref is not None:
+            _same_map(st, ref, t, label, 'call_form_same_map')
+        return t
+
+    ref = run_map(CALL_FORMS[0], lambda: ctm(c, m, bv, lam, det, 'medium'))
+    run_map(CALL_FORMS[1], lambda: ctm(quadrature_kind='medium', detector_position=det, wavelength=lam,
+                                       beam_direction=bv, sample_material=m, sample_shape=c), ref)
+    run_map(CALL_FORMS[2], lambda: ctm(c, m, bv, wavelength=lam, detector_position=det), ref)
+    run_map(CALL_FORMS[3], lambda: ctm(c, m, bv, lam, det), ref)
+    run_map(CALL_FORMS[4], lambda: ctm(c, m, bv, lam, det, np.str_('medium')), ref)
+    run_map(CALL_FORMS[5], lambda: ctm(c, m, bv, lam, det, quadrature_kind=Kind.medium), ref)
+    # beam_intersection
+    P, N, classes = gen_rays(rng, s, 14, ctx)
+    sp = sc.vectors(dims=['ray'], values=P, unit=U)
+    dr = sc.vectors(dims=['ray'], values=N)
+    forms = ((CALL_FORMS[6], lambda: c.beam_intersection(start_point=sp, direction=dr)),
+             (CALL_FORMS[7], lambda: c.beam_intersection(direction=dr, start_point=sp)),
+             (CALL_FORMS[8], lambda: c.beam_intersection(sp, direction=dr)),
+             (CALL_FORMS[9], lambda: Cylinder.beam_intersection(c, sp, dr)),
+             (CALL_FORMS[10], lambda: c.quadrature(kind=KINDS[i % 3])),
+             (CALL_FORMS[11], lambda: c.quadrature(np.str_(KINDS[(i + 1) % 3]))),
+             (CALL_FORMS[12], lambda: c.quadrature(list(Kind)[(i + 2) % 3])))
+    for label, f in forms:
+        st.case_descr = {'kind': 'calling conventions', 'form': label}
+        st.ray_classes = classes if label.startswith('beam') else None
+        _outer_call(st, label, f, form=label)
+        st.ray_classes = None
+        ctx.hit('call form: ' + label)
+        ctx.case(('call form', label, U))
+    # the bound methods as nodes of a coordinate-transformation graph: every parameter of the node is
+    # looked up as a coordinate of that name
+    st.case_descr = {'kind': 'calling conventions', 'form': CALL_FORMS[14]}
+    da = sc.DataArray(sc.ones(dims=['ray'], shape=[len(P)]), coords={'start_point': sp, 'direction': dr})
+    st.ray_classes = classes
+    out, e = _outer_call(st, CALL_FORMS[14],
+                         lambda: da.transform_coords('path_length', graph={'path_length': c.beam_intersection}),
+                         form=CALL_FORMS[14])
+    st.ray_classes = None
+    direct, _ = _outer_call(st, 'beam_intersection: positional', lambda: c.beam_intersection(sp, dr),
+                            form='beam_intersection: positional')
+    if out is not None and direct is not None:
+        ctx.event('graph_node.result')
+        got = out.coords.get('path_length')
+        if got is None or not sc.identical(got, direct):
+            ctx.violation('graph_node_result', 'transform_coords with Cylinder.beam_intersection as a node: the '
+                          'new coordinate is not what the direct call returns',
+                          {'monitor': 'graph node', 'case': st.case_descr}, form=CALL_FORMS[14])
+    ctx.hit('call form: ' + CALL_FORMS[14])
+    ctx.case(('call form', CALL_FORMS[14], U))
+    st.case_descr = {'kind': 'calling conventions', 'form': CALL_FORMS[15]}
+    dl = sc.DataArray(sc.ones(dims=['wavelength'], shape=[lam.sizes['wavelength']]), coords={'wavelength': lam})
+    out, e = _outer_call(st, CALL_FORMS[15],
+                         lambda: dl.transform_coords('mu', graph={'mu': m.attenuation_coefficient},
+                                                     rename_dims=False, keep_inputs=True),
+                         form=CALL_FORMS[15])
+    direct, _ = _outer_call(st, 'attenuation_coefficient: keyword',
+                            lambda: m.attenuation_coefficient(wavelength=lam),
+                            form='attenuation_coefficient: keyword')
+    if out is not None and direct is not None:
+        ctx.event('graph_node.result')
+        got = out.coords.get('mu')
+        if got is None or not sc.identical(got, direct):
+            ctx.violation('graph_node_result', 'transform_coords with Material.attenuation_coefficient as a '
+                          'node: the new coordinate is not what the direct call returns',
+                          {'monitor': 'graph node', 'case': st.case_descr}, form=CALL_FORMS[15])
+    ctx.hit('call form: ' + CALL_FORMS[15])
+    ctx.case(('call form', CALL_FORMS[15], U))
+    st.maps.clear()
+    st.case_descr = None
+    return s
+
+
+# ------------------------------------------- second use, display / copy between calls ---
+REUSE_STEPS = ('repr / str / == / copy / deepcopy of the objects and of the result between two calls',
+               'coordinates of the result fed back as inputs',
+               'arrays returned by quadrature() modified in place',
+               'array returned by beam_intersection() modified in place',
+               'returned map modified in place',
+               'after exceptions raised and caught',
+               'the same Material with another solid, the same solid with another Material')
+
+
+def reuse_case(rng, st, mods, i):
+    """(g) second use of the same objects / results fed back / repeat after a caught exception and
+    (j) display, comparison and copies between two computational calls: none of it may change what
+    the next call answers (every call is judged by the monitors; the maps are compared too)."""
+    import copy
+    ctx = st.ctx
+    Cylinder, Material, ScatteringParams, ctm = mods
+    s = _moderate_solid(rng, ctx)
+    U = s['U']
+    c = make_cylinder(Cylinder, s)
+    lam_A, lam, D, det, beam = _scene(rng, s, 3, 2)
+    m = _plain_material(mods, s, lam_A, float(rng.uniform(0.4, 2.5)))
+    bv = sc.vector(beam)
+    kind = KINDS[i % 3]
+    P, N, classes = gen_rays(rng, s, 14, ctx)
+    sp = sc.vectors(dims=['ray'], values=P, unit=U)
+    dr = sc.vectors(dims=['ray'], values=N)
+
+    def the_map(label, lam_=lam, det_=det, c_=c, m_=m):
+        st.case_descr = {'kind': 'second use', 'step': label}
+        st.maps.clear()
+        try:
+            res = ctm(c_, m_, bv, lam_, det_, kind)
+        except Exception:  # noqa: BLE001  judged by the map monitor
+            res = None
+        ctx.case(('second use', label, kind, U))
+        return res, _last_T(st)
+
+    def rays(label):
+        st.case_descr = {'kind': 'second use', 'step': label}
+        st.ray_classes = classes
+        try:
+            return c.beam_intersection(sp, dr)
+        except Exception:  # noqa: BLE001
+            return None
+        finally:
+            st.ray_classes = None
+
+    def harness(label, f):
+        try:
+            return f()
+        except Exception:  # noqa: BLE001   the harness' own manipulation failed
+            ctx.oracle_error(f'C18 second-use manipulation: {label}')
+            return None
+
+    res1, ref = the_map('first call')
+    # (j) display / comparison / copies
+    label = REUSE_STEPS[0]
+
+    def display():
+        repr(c), str(c), repr(m), str(m), repr(res1), str(res1)
+        _ = (c == copy.deepcopy(c)), (m == copy.copy(m)), (c != c)
+        copy.copy(c), copy.deepcopy(m)
+        if res1 is not None:
+            res1.copy(), copy.deepcopy(res1), sc.identical(res1, res1)
+        return True
+    harness(label, display)
+    _, t = the_map(label)
+    _same_map(st, ref, t, label, 'second_use_same_map')
+    rays(label)
+    ctx.hit('second use: ' + label)
+    # (g) results fed back
+    label = REUSE_STEPS[1]
+    if res1 is not None:
+        fed = harness(label, lambda: (res1.coords['wavelength'], res1.coords['detector_position']))
+        if fed is not None:
+            _, t = the_map(label, lam_=fed[0], det_=fed[1])
+            _same_map(st, ref, t, label, 'second_use_same_map')
+            ctx.hit('second use: ' + label)
+    # returned arrays modified in place: the next call must not see it
+    label = REUSE_STEPS[2]
+    st.case_descr = {'kind': 'second use', 'step': label}
+    try:
+        pts, w = c.quadrature(kind)
+    except Exception:  # noqa: BLE001
+        pts = w = None
+    if pts is not None:
+        def spoil():
+            pts.values[...] = 0.0
+            w.values[...] = -1.0
+            return True
+        if harness(label, spoil):
+            try:
+                c.quadrature(kind)
+            except Exception:  # noqa: BLE001
+                pass
+            _, t = the_map(label)
+            _same_map(st, ref, t, label, 'second_use_same_map')
+            ctx.hit('second use: ' + label)
+    label = REUSE_STEPS[3]
+    L = rays(label)
+    if L is not None and harness(label, lambda: L.values.__setitem__(Ellipsis, -1.0) or True):
+        rays(label)
+        ctx.hit('second use: ' + label)
+    label = REUSE_STEPS[4]
+    if res1 is not None and harness(label, lambda: res1.values.__setitem__(Ellipsis, 2.0) or True):
+        _, t = the_map(label)
+        _same_map(st, ref, t, label, 'second_use_same_map')
+        ctx.hit('second use: ' + label)
+    # repeat after exceptions
+    label = REUSE_STEPS[5]
+    st.case_descr = {'kind': 'second use', 'step': label}
+    for f in (lambda: c.quadrature('no such kind'),
+              lambda: c.beam_intersection(sp, dr['ray', :5]),
+              lambda: ctm(c, m, bv, lam, det, 'no such kind'),
+              lambda: ctm(c, m, bv, lam.rename_dims(wavelength='det'), det, kind)):
+        try:
+            f()
+            ctx.count('second use: call expected to raise returned')
+        except Exception:  # noqa: BLE001
+            ctx.count('second use: exception raised and caught')
+    _, t = the_map(label)
+    _same_map(st, ref, t, label, 'second_use_same_map')
+    rays(label)
+    try:
+        c.quadrature(kind)
+    except Exception:  # noqa: BLE001
+        pass
+    ctx.hit('second use: ' + label)
+    # the same Material with another solid and the same solid with another Material
+    label = REUSE_STEPS[6]
+    s2 = dict(s, axis=_sphere(rng), r=s['r'] * 0.6, h=s['h'] * 1.7)
+    c2 = make_cylinder(Cylinder, s2)
+    the_map(label + ' (other solid)', c_=c2)
+    m2 = _plain_material(mods, s, lam_A, float(rng.uniform(0.4, 2.5)), ss=0.0, sa=9.0)
+    the_map(label + ' (other material)', m_=m2)
+    _, t = the_map(label)
+    _same_map(st, ref, t, label, 'second_use_same_map')
+    ctx.hit('second use: ' + label)
+    st.maps.clear()
+    st.case_descr = None
+    return s
+
+
+# --------------------------------------------------------- operands with variances ---
+VARIANCE_CLASSES = ('radius with variances', 'height with variances', 'radius and height with variances',
+                    'wavelength with variances', 'density with variances',
+                    'cross sections with variances')
+
+
+def variances_case(rng, st, mods, i):
+    """(a) scalar fields / wavelengths carrying variances: values are judged as always; variances are
+    judged where first-order propagation is unambiguous (volume = pi r^2 h, mu linear in the
+    wavelength); a VariancesError of scipp (broadcast of an operand with variances) is a refusal."""
+    ctx = st.ctx
+    Cylinder, Material, ScatteringParams, ctm = mods
+    s = _moderate_solid(rng, ctx)
+    U = s['U']
+    lam_A, lam, D, det, beam = _scene(rng, s, 2, 3, ('angstrom', 'nm', 'm')[i % 3])
+    m = _plain_material(mods, s, lam_A, float(rng.uniform(0.4, 2.5)))
+    bv = sc.vector(beam)
+    rel = 10.0 ** rng.uniform(-3, -1)
+    P, N, classes = gen_rays(rng, s, 8, ctx)
+
+    def shape_with(r_var, h_var):
+        return Cylinder(sc.vector(s['axis']), sc.vector(s['base'], unit=U),
+                        sc.scalar(s['r'], variance=(rel * s['r']) ** 2 if r_var else None, unit=U),
+                        sc.scalar(s['h'], variance=(rel * s['h']) ** 2 if h_var else None, unit=U))
+
+    for k, (r_var, h_var) in enumerate(((True, False), (False, True), (True, True))):
+        label = VARIANCE_CLASSES[k]
+        st.case_descr = {'kind': 'variances', 'operand': label, 'relative_sigma': rel}
+        try:
+            cv = shape_with(r_var, h_var)
+        except Exception:  # noqa: BLE001
+            ctx.oracle_error('C18 variances: building the solid')
+            continue
+        judge_props(st, cv, label)
+        # scalar x scalar (no broadcast involved), then arrays, then the rules and the map
+        for j in range(4):
+            st.ray_classes = [classes[j]]
+            try:
+                cv.beam_intersection(sc.vector(P[j], unit=U), sc.vector(N[j]))
+            except Exception:  # noqa: BLE001  judged by the monitor
+                pass
+        st.ray_classes = classes
+        try:
+            cv.beam_intersection(sc.vectors(dims=['ray'], values=P, unit=U), sc.vectors(dims=['ray'], values=N))
+        except Exception:  # noqa: BLE001
+            pass
+        st.ray_classes = None
+        try:
+            cv.quadrature(KINDS[(i + k) % 3])
+        except Exception:  # noqa: BLE001
+            pass
+        st.maps.clear()
+        try:
+            ctm(cv, m, bv, lam, det, 'cheap')
+        except Exception:  # noqa: BLE001
+            pass
+        ctx.hit('variances: ' + label)
+        ctx.case(('variances', label, U))
+    # material side
+    c = make_cylinder(Cylinder, s)
+    lam_v = lam.copy()
+    lam_v.variances = (rel * lam.values) ** 2
+    label = VARIANCE_CLASSES[3]
+    st.case_descr = {'kind': 'variances', 'operand': label, 'relative_sigma': rel}
+    for w in (lam_v, lam_v['wavelength', 0], lam_v['wavelength', 1:]):
+        try:
+            m.attenuation_coefficient(w)
+        except Exception:  # noqa: BLE001  judged by the monitor
+            pass
+    st.maps.clear()
+    try:
+        ctm(c, m, bv, lam_v, det, 'cheap')
+    except Exception:  # noqa: BLE001
+        pass
+    ctx.hit('variances: ' + label)
+    ctx.case(('variances', label, str(lam.unit)))
+    n = m.effective_sample_number_density
+    sp = m.scattering_params
+    n_v = sc.scalar(float(n.value), variance=(rel * float(n.value)) ** 2, unit=n.unit)
+    sp_v = ScatteringParams(
+        'Fake', absorption_cross_section=sc.scalar(4.0, variance=(4.0 * rel) ** 2, unit='barn'),
+        total_scattering_cross_section=sc.scalar(6.0, variance=(6.0 * rel) ** 2, unit='barn'))
+    for label, mv in ((VARIANCE_CLASSES[4], Material(sp, n_v)), (VARIANCE_CLASSES[5], Material(sp_v, n))):
+        st.case_descr = {'kind': 'variances', 'operand': label, 'relative_sigma': rel}
+        for w in (lam['wavelength', 0], lam):
+            try:
+                mv.attenuation_coefficient(w)
+            except Exception:  # noqa: BLE001
+                pass
+        st.maps.clear()
+        try:
+            ctm(c, mv, bv, lam, det['det', 0], 'cheap')
+        except Exception:  # noqa: BLE001
+            pass
+        ctx.hit('variances: ' + label)
+        ctx.case(('variances', label, U))
+    st.maps.clear()
+    st.case_descr = None
+    return s
+
+
+# ------------------------------------------- dim names / dtypes of the map operands ---
+MAP_DIM_CLASSES = ("wavelength dim named 'row'", "wavelength dim named 'quad'", "wavelength dim named 'x'",
+                   "wavelength dim named 'event'", "wavelength dim named 'det', detectors over 'wavelength'",
+                   "detectors over ('row', 'quad2')", "detectors over ('vertex', 'wavelength'), wavelengths over 'lam'",
+                   "detector dim named 'quad' (paired with the nodes: no meaning by label)",
+                   'detector dim equal to the wavelength dim', 'wavelengths 0-d', 'wavelengths 2-d',
+                   'wavelengths int64')
+
+
+def map_dims_case(rng, st, mods, i):
+    """(c) dims of the map operands named like names used inside the code ('row', 'quad', 'x', 'event',
+    'wavelength' for something else ...) and integer wavelengths: the same pixels and wavelengths give
+    the same map whatever the labels are; operands without a meaning by label may be refused."""
+    ctx = st.ctx
+    Cylinder, Material, ScatteringParams, ctm = mods
+    s = _moderate_solid(rng, ctx)
+    U = s['U']
+    c = make_cylinder(Cylinder, s)
+    lam_A, lam, D, det, beam = _scene(rng, s, 4, 3)
+    m = _plain_material(mods, s, lam_A, float(rng.uniform(0.4, 2.5)))
+    bv = sc.vector(beam)
+    kind = KINDS[i % 2]
+    grid = sc.vectors(dims=['a', 'b'], values=D.reshape(2, 2, 3), unit=U)
+
+    def the_map(label, lam_, det_, ref=None):
+        st.case_descr = {'kind': 'map operand dims', 'class': label}
+        st.maps.clear()
+        try:
+            ctm(c, m, bv, lam_, det_, kind)
+        except Exception:  # noqa: BLE001  judged by the map monitor
+            pass
+        ctx.hit('map operands: ' + label)
+        ctx.case(('map dims', label, kind, U))
+        t = _last_T(st)
+        if ref is not None:
+            _same_map(st, ref, t, label, 'map_dim_names_same_map')
+        return t
+
+    ref = the_map('standard names', lam, det)
+    ref2 = the_map('standard names, 2-d detectors', lam, grid)
+    C = MAP_DIM_CLASSES
+    the_map(C[0], lam.rename_dims(wavelength='row'), det, ref)
+    the_map(C[1], lam.rename_dims(wavelength='quad'), det, ref)
+    the_map(C[2], lam.rename_dims(wavelength='x'), det, ref)
+    the_map(C[3], lam.rename_dims(wavelength='event'), det, ref)
+    the_map(C[4], lam.rename_dims(wavelength='det'), det.rename_dims(det='wavelength'), ref)
+    the_map(C[5], lam, grid.rename_dims(a='row', b='quad2'), ref2)
+    the_map(C[6], lam.rename_dims(wavelength='lam'), grid.rename_dims(a='vertex', b='wavelength'), ref2)
+    the_map(C[7], lam, det.rename_dims(det='quad'))
+    the_map(C[8], lam, det.rename_dims(det='wavelength'))
+    the_map(C[9], lam['wavelength', 0], det)
+    the_map(C[10], sc.array(dims=['a', 'wavelength'], values=np.stack([lam.values, lam.values * 1.1]),
+                            unit=lam.unit), det)
+    lam_i = sc.array(dims=['wavelength'], values=np.array([1, 3, 7 + i % 5], dtype=np.int64), unit='angstrom')
+    the_map(C[11], lam_i, det)
+    st.maps.clear()
+    st.case_descr = None
+    return s
+
+
+# ------------------------------------------------------------- generic large sizes ---
+def bulk_rays(rng, s, n):
+    """n rays without a Python loop: origins in a box of 3 sample sizes around the solid (about a
+    tenth inside), directions over the sphere with exact (anti)parallels and coordinate axes mixed in."""
+    a = s['axis']
+    e1, e2, _ = (np.asarray(e, dtype=np.float64) for e in cyl.frame(a))
+    ph = rng.uniform(0, 2 * np.pi, size=n)
+    inside = rng.random(n) < 0.5
+    rho = np.where(inside, s['r'] * np.sqrt(rng.random(n)) * 0.999, s['r'] * rng.uniform(0, 3, size=n))
+    z = np.where(inside, s['h'] * rng.uniform(0.001, 0.999, size=n), s['h'] * rng.uniform(-2, 3, size=n))
+    P = (s['base'][None, :] + (rho * np.cos(ph))[:, None] * e1 + (rho * np.sin(ph))[:, None] * e2
+         + z[:, None] * a)
+    N = rng.normal(size=(n, 3))
+    N /= np.linalg.norm(N, axis=1)[:, None]
+    k = rng.integers(0, 16, size=n)
+    N[k == 0] = a
+    N[k == 1] = -a
+    N[k == 2] = np.array([0.0, 0.0, 1.0])
+    return P, N
+
+
+SIZE_CLASSES = ('beam_intersection with 2**20 + 7 paired rays', 'beam_intersection with 3 x 400001 rays',
+                'quadrature-like outer product 300 x 4001')
+
+
+def sizes_case(rng, st, Cylinder):
+    """(h) generic large operands in one call (no literal size threshold other than the 2e7 of the heavy
+    case exists in the code): every table is thinned by dim label and judged entry by entry."""
+    ctx = st.ctx
+    s = _moderate_solid(rng, ctx)
+    U = s['U']
+    c = make_cylinder(Cylinder, s)
+    n1 = 2 ** 20 + 7
+    P, N = bulk_rays(rng, s, max(n1, 3 * 400001, 300 * 4001))
+    calls = (
+        (SIZE_CLASSES[0], lambda: (sc.vectors(dims=['ray'], values=P[:n1], unit=U),
+                                   sc.vectors(dims=['ray'], values=N[:n1]))),
+        (SIZE_CLASSES[1], lambda: (sc.vectors(dims=['row', 'ray'], values=P[:3 * 400001].reshape(3, 400001, 3),
+                                              unit=U),
+                                   sc.vectors(dims=['ray'], values=N[:400001]))),
+        (SIZE_CLASSES[2], lambda: (sc.vectors(dims=['quad'], values=P[:4001], unit=U),
+                                   sc.vectors(dims=['det', 'quad'], values=N[:300 * 4001].reshape(300, 4001, 3)))),
+    )
+    for label, build in calls:
+        st.case_descr = {'kind': 'large operands', 'class': label}
+        try:
+            sp, dr = build()
+        except Exception:  # noqa: BLE001
+            ctx.oracle_error('C18 large operands')
+            continue
+        before = st.outer_returns
+        try:
+            c.beam_intersection(sp, dr)
+        except Exception:  # noqa: BLE001  judged by the monitor
+            pass
+        if st.outer_returns > before:
+            ctx.hit('sizes: ' + label)
+        ctx.case(('sizes', label, U))
+    st.case_descr = None
+    return s
+
+
 # ---------------------------------------------------------------------- driver ---
 def plan(tier, seed):
     # the one heavy case of a run has the last shard for itself (quick) / rides on it (thorough)
+    # the generic large operands ride on the last regular shard (quick) / on shard 14 (thorough)
     if tier == 'quick':
         return [{'rays': 60, 'quads': 48, 'trans': 8, 'state': 5, 'mat_state': 4, 'layouts': 3,
-                 'det_layouts': 1, 'units': 1, 'heavy': False}
-                for _ in range(15)] + [
+                 'det_layouts': 1, 'units': 1, 'poly': 1, 'conv': 1, 'reuse': 1, 'var': 1, 'map_dims': 1,
+                 'sizes': i == 14, 'heavy': False}
+                for i in range(15)] + [
             {'rays': 0, 'quads': 0, 'trans': 0, 'state': 0, 'mat_state': 0, 'heavy': True}]
     return [{'rays': 3000, 'quads': 2250, 'trans': 200, 'state': 150, 'mat_state': 50,
-             'layouts': 150, 'det_layouts': 30, 'units': 9, 'heavy': i == 15} for i in range(16)]
+             'layouts': 150, 'det_layouts': 30, 'units': 9, 'poly': 25, 'conv': 10, 'reuse': 10, 'var': 10,
+             'map_dims': 10, 'sizes': i == 14, 'heavy': i == 15} for i in range(16)]
 
 
 def requirements(tier):
@@ -2245,6 +3327,10 @@ def requirements(tier):
         'beam_intersection.dims.direct': 400, 'beam_intersection.dims.in_situ': 200,
         'beam_intersection.layout': 40 * (len(LAYOUTS) - 3), 'transmission.detector_layout': 50,
         'units.exercised': 300,
+        'standin.map_called': 200, 'transmission.monotone_wavelength': 100,
+        'standin_shape_same_map': 20, 'call_form_same_map': 60, 'graph_node.result': 20,
+        'second_use_same_map': 60, 'map_dim_names_same_map': 80,
+        'attenuation_coefficient.variances': 30, 'state.volume.variances': 30,
     }
     forced = list(FORCED_AXIS.values()) + [
         'axis z<0', 'axis in the xy-plane at a generic angle',
@@ -2265,12 +3351,22 @@ def requirements(tier):
         'flat list', '2-d array', 'transposed view of a 2-d array', 'strided slice',
         'one pixel, length-1 array', 'one pixel, 0-d vector')]
     forced += list(UNIT_CLASSES)
+    forced += ['material stand-in: ' + x for x in MATERIAL_STANDINS]
+    forced += ['stand-in law: ' + x for x in LAWS]
+    forced += ['stand-in fields: ' + x for x in FIELD_PROFILES]
+    forced += ['shape stand-in: ' + x for x in SHAPE_STANDINS]
+    forced += ['call form: ' + x for x in CALL_FORMS]
+    forced += ['second use: ' + x for x in REUSE_STEPS]
+    forced += ['variances: ' + x for x in VARIANCE_CLASSES]
+    forced += ['map operands: ' + x for x in MAP_DIM_CLASSES]
+    forced += ['sizes: ' + x for x in SIZE_CLASSES]
     if tier == 'thorough':
         forced.append('per-detector loop branch observed (2-d array with rows above the threshold)')
         forced.append('per-detector loop branch observed (2-d array of many thin rows)')
     return {'events': ev, 'forced': forced,
             'counters': {'rays_decided': 10000, 'layout:entries_decided_with_nonzero_path': 2000,
-                         'refused:operand_extents_conflict': 40}}
+                         'refused:operand_extents_conflict': 40,
+                         'map_judged_from_nodes_of_overriding_subclass': 20}}
 
 
 def _mp_selftest(ctx):
@@ -2412,6 +3508,29 @@ def run(shard, ctx):
         st.origin = 'state'
         for i in range(shard.get('units', 0)):
             units_case(rng2, st, mods, i + shard['index'])
+        # round-6 classes: a third stream
+        rng3 = np.random.Generator(np.random.PCG64([shard['seed'], shard['index'], 181818]))
+        st.origin = 'transmission'
+        if shard.get('poly', 0):
+            SI = make_standins(mods)
+        for i in range(shard.get('poly', 0)):
+            before = ctx.n_violations
+            s = poly_case(rng3, st, mods, SI, i + shard['index'])
+            if i < 1 or ctx.n_violations > before:
+                ctx.sample({'case': 'stand-ins', 'solid': _solid_descr(s)})
+        for i in range(shard.get('conv', 0)):
+            convention_case(rng3, st, mods, i + shard['index'])
+        for i in range(shard.get('reuse', 0)):
+            reuse_case(rng3, st, mods, i + shard['index'])
+        st.origin = 'state'
+        for i in range(shard.get('var', 0)):
+            variances_case(rng3, st, mods, i + shard['index'])
+        st.origin = 'transmission'
+        for i in range(shard.get('map_dims', 0)):
+            map_dims_case(rng3, st, mods, i + shard['index'])
+        if shard.get('sizes'):
+            st.origin = 'direct'
+            sizes_case(rng3, st, Cylinder)
         if shard.get('heavy'):
             st.origin = 'transmission'
             heavy_case(rng, st, mods, shard.get('tier'))
@@ -2470,7 +3589,9 @@ TECHNIQUE = ('runtime monitors (sys.monitoring) on beam_intersection + helpers, 
              '_select_quadrature_points, compute_transmission_map and its helpers; long-double own-frame '
              'geometry oracle with shrunk/grown-solid enclosure, canonical-pose multiset comparison, '
              'transmission recomputed from observed nodes with oracle paths; stateful object sequences judged against '
-             'the fields current at each call; looped vs vectorised evaluation compared elementwise')
+             'the fields current at each call; looped vs vectorised evaluation compared elementwise; harness-owned '
+             'subclasses / stand-ins with declared laws and nodes; call-form, second-use and dim-name variants '
+             'compared with the first call')
 LEVEL_TEXT = ('exploration: every observed path length (direct calls in forced ray classes and all calls '
               'made inside compute_transmission_map) is compared with the clipping of the ray against '
               'rho<=r, 0<=z<=h in a Gram-Schmidt frame; every observed quadrature is judged node by node '
